@@ -30,6 +30,7 @@ type Event struct {
 	Err     bool   `json:"err,omitempty"`
 	// for Evaluating: the environment keys that differ according to the event's own diff
 	DiffKeys []string `json:"diffkeys,omitempty"`
+	SameKeys []string `json:"samekeys,omitempty"` // parts of the environments that do not differ
 	HasDiff  bool     `json:"hasdiff,omitempty"`
 	// Problem is what the reconstruction oracle says about the event's diff ("" = faithful)
 	Problem string `json:"problem,omitempty"`
@@ -55,24 +56,38 @@ func errText(err error) string {
 	return err.Error()
 }
 
-func (r *Recorder) Print(l *label.Label, line string)                  { r.add(Event{Kind: "Print", Label: l.String(), Text: line}) }
-func (r *Recorder) RequirementLoading(*label.Label, string)            {}
-func (r *Recorder) RequirementLoaded(*label.Label, string)             {}
-func (r *Recorder) RequirementLoadFailed(*label.Label, string, error)  {}
-func (r *Recorder) ModuleLoading(l *label.Label)                       { r.add(Event{Kind: "ModuleLoading", Label: l.String()}) }
-func (r *Recorder) ModuleLoaded(l *label.Label)                        {}
-func (r *Recorder) ModuleLoadFailed(l *label.Label, err error)         { r.add(Event{Kind: "ModuleLoadFailed", Label: l.String(), Text: errText(err), Err: true}) }
-func (r *Recorder) LoadDone(err error)                                 { r.add(Event{Kind: "LoadDone", Text: errText(err), Err: err != nil}) }
-func (r *Recorder) TargetUpToDate(l *label.Label)                      { r.add(Event{Kind: "UpToDate", Label: l.String()}) }
-func (r *Recorder) TargetFailed(l *label.Label, err error)             { r.add(Event{Kind: "Failed", Label: l.String(), Text: errText(err), Err: true}) }
-func (r *Recorder) TargetSucceeded(l *label.Label, changed bool)       { r.add(Event{Kind: "Succeeded", Label: l.String(), Changed: changed}) }
-func (r *Recorder) RunDone(err error)                                  { r.add(Event{Kind: "RunDone", Text: errText(err), Err: err != nil}) }
-func (r *Recorder) FileChanged(*label.Label)                           {}
+func (r *Recorder) Print(l *label.Label, line string) {
+	r.add(Event{Kind: "Print", Label: l.String(), Text: line})
+}
+func (r *Recorder) RequirementLoading(*label.Label, string)           {}
+func (r *Recorder) RequirementLoaded(*label.Label, string)            {}
+func (r *Recorder) RequirementLoadFailed(*label.Label, string, error) {}
+func (r *Recorder) ModuleLoading(l *label.Label) {
+	r.add(Event{Kind: "ModuleLoading", Label: l.String()})
+}
+func (r *Recorder) ModuleLoaded(l *label.Label) {}
+func (r *Recorder) ModuleLoadFailed(l *label.Label, err error) {
+	r.add(Event{Kind: "ModuleLoadFailed", Label: l.String(), Text: errText(err), Err: true})
+}
+func (r *Recorder) LoadDone(err error) {
+	r.add(Event{Kind: "LoadDone", Text: errText(err), Err: err != nil})
+}
+func (r *Recorder) TargetUpToDate(l *label.Label) { r.add(Event{Kind: "UpToDate", Label: l.String()}) }
+func (r *Recorder) TargetFailed(l *label.Label, err error) {
+	r.add(Event{Kind: "Failed", Label: l.String(), Text: errText(err), Err: true})
+}
+func (r *Recorder) TargetSucceeded(l *label.Label, changed bool) {
+	r.add(Event{Kind: "Succeeded", Label: l.String(), Changed: changed})
+}
+func (r *Recorder) RunDone(err error) {
+	r.add(Event{Kind: "RunDone", Text: errText(err), Err: err != nil})
+}
+func (r *Recorder) FileChanged(*label.Label) {}
 func (r *Recorder) TargetEvaluating(l *label.Label, reason string, d diff.ValueDiff) {
 	e := Event{Kind: "Evaluating", Label: l.String(), Text: reason}
 	if d != nil {
 		e.HasDiff = true
-		e.DiffKeys = DifferingEnvKeys(d)
+		e.DiffKeys, e.SameKeys = envKeys(d)
 		func() {
 			defer func() {
 				if p := recover(); p != nil {
@@ -86,32 +101,48 @@ func (r *Recorder) TargetEvaluating(l *label.Label, reason string, d diff.ValueD
 	r.add(e)
 }
 
-// EnvKeys is the documented order of the environment's parts.
-var EnvKeys = []string{"names", "constant values", "predeclared values", "universal values", "function values", "global values", "default parameter values", "free variables", "code"}
-
-// DifferingEnvKeys computes, independently of dawn's reason string, which top-level keys of
-// the two environments carried by the diff differ.
+// DifferingEnvKeys computes, independently of dawn's reason string, which top-level parts of the
+// two environments carried by the diff differ; SameEnvKeys the parts present in either that do not.
+// The part names are taken from the environments themselves.
 func DifferingEnvKeys(d diff.ValueDiff) []string {
+	differ, _ := envKeys(d)
+	return differ
+}
+
+// SameEnvKeys: see DifferingEnvKeys.
+func SameEnvKeys(d diff.ValueDiff) []string {
+	_, same := envKeys(d)
+	return same
+}
+
+func envKeys(d diff.ValueDiff) (differ, same []string) {
 	od, ok1 := d.Old().(*starlark.Dict)
 	nd, ok2 := d.New().(*starlark.Dict)
 	if !ok1 || !ok2 {
-		return []string{"<environment is not a dict>"}
+		return []string{"<environment is not a dict>"}, nil
 	}
-	var out []string
-	for _, k := range EnvKeys {
-		ov, oh, _ := od.Get(starlark.String(k))
-		nv, nh, _ := nd.Get(starlark.String(k))
-		switch {
-		case !oh && !nh:
-		case oh != nh:
-			out = append(out, k)
-		default:
-			if eq, err := starlark.EqualDepth(ov, nv, 1000); err != nil || !eq {
-				out = append(out, k)
+	var keys []string
+	seen := map[string]bool{}
+	for _, dict := range []*starlark.Dict{od, nd} {
+		for _, k := range dict.Keys() {
+			if ks, ok := k.(starlark.String); ok && !seen[string(ks)] {
+				seen[string(ks)] = true
+				keys = append(keys, string(ks))
 			}
 		}
 	}
-	return out
+	for _, k := range keys {
+		ov, oh, _ := od.Get(starlark.String(k))
+		nv, nh, _ := nd.Get(starlark.String(k))
+		if oh != nh {
+			differ = append(differ, k)
+		} else if eq, err := starlark.EqualDepth(ov, nv, 100000); err != nil || !eq {
+			differ = append(differ, k)
+		} else {
+			same = append(same, k)
+		}
+	}
+	return differ, same
 }
 
 // BuildReq describes one build.
@@ -124,7 +155,7 @@ type BuildReq struct {
 	GC          string   `json:"gc,omitempty"` // "" | "before": run Project.GC() after load, before the build (as the test helper does)
 	NoRun       bool     `json:"norun,omitempty"`
 	Repeat      int      `json:"repeat,omitempty"` // run the same loaded Project this many extra times (as the REPL's run() does)
-	Order       []string `json:"order,omitempty"` // package load order imposed through vf.gate (empty = free-running)
+	Order       []string `json:"order,omitempty"`  // package load order imposed through vf.gate (empty = free-running)
 	// crash injection (child processes only)
 	CrashSite  string `json:"crashsite,omitempty"`
 	CrashLabel string `json:"crashlabel,omitempty"`
